@@ -20,6 +20,7 @@
 long long vp_replay_get(const char *name, long idx);
 #define VP_IN(type, name) name = (type)vp_replay_get(#name, -1)
 #define VP_IN_ARR(name, n) do { for (long vp_i_ = 0; vp_i_ < (long)(n); vp_i_++) name[vp_i_] = vp_replay_get(#name, vp_i_); } while (0)
+#define VP_IN_BYTES(name, n) VP_IN_ARR(name, n)
 #else
 unsigned long long nondet_u64(void);
 uint8_t nondet_u8(void);
@@ -27,6 +28,7 @@ int nondet_int(void);
 _Bool nondet_bool(void);
 #define VP_IN(type, name) do { type vp_tmp_; name = vp_tmp_; } while (0)
 #define VP_IN_ARR(name, n) do { __CPROVER_havoc_object(name); } while (0)
+#define VP_IN_BYTES(name, n) ((void)0) /* an uninitialised local array is nondeterministic; its initial value appears in the trace */
 #endif
 #define VP_ASSERT(c, msg) __CPROVER_assert((c), msg)
 /* reachability guard (vacuity check): a must-FAIL assertion.  The driver requires every VP-REACH marker to be
